@@ -224,7 +224,15 @@ def r7(F, rep):
             if init["k"] == "MemberExpr" and init.get("n") in members:
                 saved[init["n"]] = v
     # the change test: conditions guarding `new_params = true`
-    sets = [w for w, t in lvalue_writes(f) if X.strip(t)["k"] == "DeclRefExpr" and X.strip(t).get("n") == "new_params" and
+    # the flag is identified by its role: the boolean local that guards the re-dimensioning (init_from_boundaries / setup)
+    flag_ids = set()
+    for c in X.calls(f):
+        if X.callee_name(c) in ("init_from_boundaries", "setup"):
+            for cid, pol in f.cfg.real_guards(c):
+                g = X.strip(f.nodes[cid])
+                if pol and g["k"] == "DeclRefExpr" and g.get("st") == "local":
+                    flag_ids.add(g["d"])
+    sets = [w for w, t in lvalue_writes(f) if X.strip(t)["k"] == "DeclRefExpr" and X.strip(t).get("d") in flag_ids and
             w["k"] == "BinaryOperator" and C._lit(X.kids(w)[1]) == 1]
     cond_keys = ""
     for w in sets:
@@ -234,7 +242,7 @@ def r7(F, rep):
                 cn = cs[1] if len(cs) == 4 else cs[0]
                 cond_keys += " " + X.re_strip(X.key(cn, f))
     if not sets:
-        raise AnalysisBroken("colvar_grid::parse_params: `new_params = true` not found")
+        raise AnalysisBroken("colvar_grid::parse_params: the flag that triggers re-dimensioning is never set")
     for m in sorted(members):
         n += 1
         v = saved.get(m)
